@@ -997,6 +997,10 @@ def focus_job(job):
   for i in idxs:
     ft = FEATURES[i]
     cfgs = ft.cfgs
+    if quick and len(cfgs) == len(FOCUS_CONFIGS) and ft.label.startswith("style:"):
+      cfgs = [cfgs[0], cfgs[1 + i % 2]]
+    elif quick and len(cfgs) == len(CONFIGS) and ft.label.startswith("timing:"):
+      cfgs = [cfgs[(i * 5 + 3 * k) % len(CONFIGS)] for k in range(9)]      # 9 of the 28, rotating with the feature
     for cfg in cfgs:
       roundtrip(rec, lambda i=i, cfg=cfg: focus_doc(i, cfg), cfg, ft.label, {"feature": i, "label": ft.label, "cfg": cfg}, ft.note)
   return rec
@@ -1053,9 +1057,9 @@ def main():
   failing = sorted({k.split("/")[0] for k in rec.failures if not k.startswith(("doc/", "colour/", "time-expression"))})
   rec.scope["focused_features_failing_on_their_own"] = len(failing)
   # phase 2: random documents without those features
-  per = 14 if quick else 160
+  per = 32 if quick else 200
   ncfg = 2 if quick else 4
-  jobs = [("random", (args.seed, scope, ch, per, ncfg, tuple(failing))) for scope in SCOPES for ch in range(4)]
+  jobs = [("random", (args.seed, scope, ch, per, ncfg, tuple(failing))) for scope in SCOPES for ch in range(4 if quick else 16)]
   for part in parallel(_dispatch, jobs):
     rec.merge(part)
   rec.scope["random_documents"] = per * len(jobs)
